@@ -275,6 +275,31 @@ def check_realseed(cfg, acc):
             fails.append(("not-reproducible", "%s is not reproducible after np.random.seed(%d)" % (desc(cfg, 5), s)))
         if np.array_equal(a, b):
             fails.append(("degenerate", "%s returns the same values on consecutive calls" % desc(cfg, 5)))
+    # large requests (a size threshold may switch the implementation to another code path): shape, global stream, twice in a row
+    for n in (1000, 100000, 2 ** 17 + 3):
+        try:
+            np.random.seed(7)
+            a = f(n)
+            np.random.seed(7)
+            a2 = f(n)
+            b = f(n)
+        except Exception as e:
+            return fails + [("raises", "%s raised %r" % (desc(cfg, n), e))]
+        acc.states += 1
+        acc.traces += 1
+        acc.transitions += 3
+        acc.extra["large_n_draws"] += 3
+        sf = shape_fail(cfg, n, a) or shape_fail(cfg, n, b)
+        if sf:
+            fails += sf
+        elif not np.array_equal(a, a2):
+            fails.append(("not-reproducible", "%s is not reproducible after np.random.seed(7): %d of %d values differ" % (desc(cfg, n), int(np.sum(np.asarray(a) != np.asarray(a2))), n)))
+        elif np.array_equal(a, b):
+            fails.append(("degenerate", "%s returns the same values on consecutive calls" % desc(cfg, n)))
+        elif cfg["f"] == "uniform":
+            lo, hi = spec(cfg)
+            if lo <= hi and not (np.all(np.asarray(a) >= lo) and np.all(np.asarray(a) <= hi)):
+                fails.append(("uniform-out-of-range", "%s returns values outside [%r, %r]" % (desc(cfg, n), lo, hi)))
     return fails
 
 
@@ -318,7 +343,8 @@ def describe(tier, seed):
                 "single-argument forms, n in {0,1,2,5}; normal: output = m + sqrt(v) * (own standard-normal cell) for every element (response covariance = v*I); "
                 "uniform/laplace: every element is lo+(hi-lo)*u resp. the Laplace(m, s) quantile of its own fresh uniform cell (or the mirror image) for u over a 5-point "
                 "menu, two consecutive calls use disjoint cells; all cells come from numpy's global stream; zero() consumes nothing; functions.null(...) == 0; real numpy: "
-                "seed(s); f(5) reproducible for s in {0, 1, 2^32-1} and consecutive draws differ. non-trivial: n > 0",
+                "seed(s); f(5) reproducible for s in {0, 1, 2^32-1} and consecutive draws differ; the same for large requests n in {1000, 100000, 2^17+3} (shape, support, reproducible, "
+                "consecutive draws differ). non-trivial: n > 0",
         "exhaustive": True,
         "bounds": {"n": list(NS), "deviation": 1},
         "assumptions": ["numpy's standard_normal / uniform base draws are i.i.d. N(0,1) / U[0,1): moments follow from the verified transform, no statistics are computed",
